@@ -21,9 +21,12 @@ type Pipe struct {
 	in       [][]byte
 	readErr  error
 	readErrs int // how many Reads returned readErr
-	fed      int
-	taken    int
-	reading  int // readers parked in Read
+	// errWithLast is returned together with the last byte of the pending input (FeedWithError)
+	errWithLast error
+	oneShotErr  error // returned by exactly one Read call (FailNextRead)
+	fed         int
+	taken       int
+	reading     int // readers parked in Read
 
 	writes      [][]byte
 	writeTimes  []time.Time
@@ -67,6 +70,24 @@ func (p *Pipe) FailReads(err error) {
 	p.cond.Broadcast()
 }
 
+// FailNextRead makes exactly one Read call (the pending one, or the next) return err once the queued input is gone.
+func (p *Pipe) FailNextRead(err error) {
+	p.mu.Lock()
+	p.oneShotErr = err
+	p.mu.Unlock()
+	p.cond.Broadcast()
+}
+
+// FeedWithError queues b; the Read call that hands out its last byte returns err along with the data.
+func (p *Pipe) FeedWithError(b []byte, err error) {
+	p.mu.Lock()
+	p.in = append(p.in, append([]byte(nil), b...))
+	p.fed += len(b)
+	p.errWithLast = err
+	p.mu.Unlock()
+	p.cond.Broadcast()
+}
+
 // ReadErrors is how many Read calls returned the injected error so far.
 func (p *Pipe) ReadErrors() int {
 	p.mu.Lock()
@@ -86,7 +107,7 @@ func (p *Pipe) Read(b []byte) (int, error) {
 	p.mu.Lock()
 	defer p.mu.Unlock()
 	p.readsIssued++
-	for len(p.in) == 0 && !p.closed && p.readErr == nil {
+	for len(p.in) == 0 && !p.closed && p.readErr == nil && p.oneShotErr == nil {
 		p.reading++
 		p.cond.Broadcast()
 		p.cond.Wait()
@@ -101,12 +122,24 @@ func (p *Pipe) Read(b []byte) (int, error) {
 		}
 		p.taken += n
 		p.cond.Broadcast()
+		if len(p.in) == 0 && p.errWithLast != nil {
+			// the io.Reader contract allows data and an error in the same call
+			err := p.errWithLast
+			p.errWithLast = nil
+			p.readErrs++
+			return n, err
+		}
 		return n, nil
 	}
 	if p.closed {
 		return 0, ErrClosed
 	}
 	p.readErrs++
+	if p.oneShotErr != nil {
+		err := p.oneShotErr
+		p.oneShotErr = nil
+		return 0, err
+	}
 	return 0, p.readErr
 }
 
